@@ -389,6 +389,15 @@ def run(cx: Cx):
                              where=cx.where(sysinit))
     for c in ('Collector', 'AgentCollector', 'FileCollector'):
         check_forwarding_chain(cx, COLL + c, ['frequency', 'start', 'end'], CORE + 'System.__init__')
+    # the declared window is the window used: no package code rewrites start / end / frequency after construction
+    for fld in ('start', 'end', 'frequency'):
+        for s_ in cx.effects.sites_of((CORE + 'System', fld)):
+            if s_.owner_name != '__init__':
+                cx.violation('R-DISC', s_.fn.qualname, f"{fld}-rewritten",
+                             f"{s_.describe()}: System.{fld} is written outside a constructor - a registered system no longer runs in the "
+                             f"window it was declared with", where=s_.where)
+            else:
+                cx.ok('R-DISC', f"{fld} written only at construction", where=s_.where, function=s_.fn.qualname)
     from .common import include_premises
     include_premises(cx, ['C01'], 'a system runs once per due timestep only if it is queued exactly once',
                      only=lambda o: o.rule in ('R-PAIR', 'R-DISC', 'R-NONE', 'R-ATOMIC'))
